@@ -41,8 +41,8 @@ package controllerref
 //@   safety C13
 //@   om-writes [C04,C02] owners
 //@   writes [C04,C17] obj
-//@   ensures [C04] changed
-//@   ensures [C04] exists j int :: 0 <= j && j < ownerLen(obj) && ownerAt(obj, j) == *controllerRef
+//@   ensures [C04,C02] changed
+//@   ensures [C04,C02] exists j int :: 0 <= j && j < ownerLen(obj) && ownerAt(obj, j) == *controllerRef
 //@   ensures [C04] forall j int :: 0 <= j && j < ownerLen(obj) ==> ownerAt(obj, j) == *controllerRef || (exists i int :: 0 <= i && i < old(ownerLen(obj)) && old(ownerAt(obj, i)) == ownerAt(obj, j))
 
 //@ func UnstructuredManager.releaseChild(m, obj) (err)
